@@ -4,7 +4,8 @@ Model checking : Pipeline.tla - the probe file .write_test (C16_ProbeUntouched) 
                  intended knobs hold, as-built knobs (BuildProbes) violate it on the build driver.
 Replay         : TLC-enumerated histories (incl. runs that find no commands - also as the very first run into a
                  directory without a cache record -, a foreign .write_test, loss of files) x output-directory layouts {beside the project, inside it, nested 4 deep below
-                 non-existing parents, absolute path, trailing slash, equal to the project source directory}
+                 non-existing parents, absolute path, trailing slash, equal to the project source directory, a directory
+                 whose own name contains `_generated`}
                  x drivers {generate, init, build}; the output directory is pre-populated with foreign files
                  whose names are close to the reserved ones.
 Trace validation: Trace_Pipeline.tla - EVERY file-mutating system call seen by strace must hit a reserved
@@ -44,11 +45,17 @@ def layouts():
     def same(st, root):
         st.out_rel = "src-tauri/src"
 
+    def dunder(st, root):
+        st.out_rel = "src/__generated__"
+
+    def suffixed(st, root):
+        st.out_rel = "src/api_generated"
+
     def noprefix(st, root):
         st.out_cfg = st.out_rel
         st.proj_cfg = st.proj_rel
     return [("beside", beside), ("inside", inside), ("deep", deep), ("absolute", absolute), ("slash", slash),
-            ("same", same), ("noprefix", noprefix)]
+            ("same", same), ("noprefix", noprefix), ("dunder", dunder), ("suffixed", suffixed)]
 
 
 def run(tier, seed, only=None):
